@@ -212,25 +212,21 @@ impl Check for C03 {
         }
         let found = examine(ctx, &module, None);
         for (sig, what, n) in found {
-            // minimise the workload: keep the same oracle failing at the same budget or any budget
-            ctx.pre_violation(&sig, &what, &json!({"module": module_json(&module), "budget": n}));
-            ctx.progress("minimise");
-            let sig2 = sig.clone();
-            let mm = if std::env::var_os("CAOSIM_NO_SHRINK").is_none() {
-                shrink_module(&module, 60, |cand| {
-                    let mut c2 = CaseCtx::new("C03", ctx.seed, ctx.case, Tier::Quick);
-                    c2.progress_enabled = false;
-                    examine(&mut c2, cand, None).iter().any(|(s, _, _)| s == &sig2)
-                })
-            } else {
-                module.clone()
-            };
-            // budget for the replay of the minimised module
-            let mut c2 = CaseCtx::new("C03", ctx.seed, ctx.case, Tier::Quick);
-            c2.progress_enabled = false;
-            let n2 = examine(&mut c2, &mm, None).into_iter().find(|(s, _, _)| s == &sig).map(|x| x.2).unwrap_or(n);
-            ctx.violation(sig, what, json!({"module": module_json(&mm), "budget": n2, "cards": count_cards(&mm)}));
+            ctx.violation(sig, what, json!({"module": module_json(&module), "budget": n, "cards": count_cards(&module)}));
         }
+    }
+    fn minimise(&self, replay: &Json, sig: &Json) -> Json {
+        let Some(module) = replay.get("module").and_then(module_from_json) else { return replay.clone() };
+        let n = replay.get("budget").and_then(|b| b.as_u64()).unwrap_or(1);
+        let quiet = || {
+            let mut c2 = CaseCtx::new("C03", 1, 0, Tier::Quick);
+            c2.progress_enabled = false;
+            c2
+        };
+        // keep the same oracle failing at any budget of the sweep
+        let mm = shrink_module(&module, 60, |cand| examine(&mut quiet(), cand, None).iter().any(|(s, _, _)| s == sig));
+        let n2 = examine(&mut quiet(), &mm, None).into_iter().find(|(s, _, _)| s == sig).map(|x| x.2).unwrap_or(n);
+        json!({"module": module_json(&mm), "budget": n2, "cards": count_cards(&mm)})
     }
     fn replay(&self, replay: &Json, ctx: &mut CaseCtx) {
         let Some(m) = replay.get("module").and_then(module_from_json) else { return };
